@@ -71,6 +71,8 @@ impl<T> RcDeref for MutArc<T> {
 
   #[inline]
   fn rc_deref(&self) -> Self::Ref<'_> {
+    #[cfg(feature = "verif_hooks")]
+    crate::verif_hooks::point("lock", Arc::as_ptr(&self.0) as *const () as usize, &mut || !matches!(self.0.try_lock(), Err(std::sync::TryLockError::WouldBlock)));
     self.0.lock().unwrap()
   }
 }
@@ -91,6 +93,8 @@ impl<T> RcDerefMut for MutArc<T> {
 
   #[inline]
   fn rc_deref_mut(&self) -> Self::MutRef<'_> {
+    #[cfg(feature = "verif_hooks")]
+    crate::verif_hooks::point("lock", Arc::as_ptr(&self.0) as *const () as usize, &mut || !matches!(self.0.try_lock(), Err(std::sync::TryLockError::WouldBlock)));
     self.0.lock().unwrap()
   }
 }
